@@ -87,6 +87,10 @@ func (v *StructSchema) process(ctx *p.SchemaCtx) {
 			return
 		}
 		dataProv = newDp
+		if dataProv == nil {
+			// an empty document (e.g. JSON {}) has no provider: every field is absent
+			dataProv = &p.EmptyDataProvider{}
+		}
 	} else {
 		newDp, err := p.TryNewAnyDataProvider(ctx.Data)
 		if err != nil {
